@@ -23,6 +23,7 @@ Specials == {
   Note(Obj(<<P(Ka, Note(One, "first")), P(Kb, Note(Lit(StrD(Sa), <<OptR>>), "second"))>>, <<R("additionalProperties", BV(TRUE))>>), "object note"),
   Note(Arr(<<Note(One, "i0"), Lit(StrD(Sa), <<NullR>>)>>, <<R("minItems", NV(N1)), R("maxItems", NV(N5))>>), "array note"),
   Obj(<<P(Kd, Lit(NumD(N2), <<>>))>>, <<R("allOf", TRef("@A1"))>>),
+  Obj(<<P(Kd, Lit(NumD(N2), <<>>))>>, <<R("allOf", ListV(<<TRef("@A1")>>))>>),          \* a one-item array stays an array
   Obj(<<P(Kd, Lit(NumD(N2), <<OptR>>)), P(Kc, Ref(<<"@I">>, <<>>))>>, <<R("allOf", ListV(<<TRef("@A1"), TRef("@A2")>>)), R("additionalProperties", IdV("string"))>>),
   Lit(NumD(N1), <<R("enum", [t |-> "name", s |-> "@E"])>>), Lit(StrD(Sa), <<R("enum", [t |-> "name", s |-> "@E"]), NullR>>),
   Lit(NumD(N1), <<R("enum", ListV(<<EV(NumD(N1)), EV(StrD(Sa)), EV(Null), EV(BoolD(TRUE)), EV(NumD(N2_5))>>))>>),
